@@ -43,7 +43,8 @@ def answer (kv : KV) : String :=
         let (res, items) := match r.res with
           | .ok a => ("ok", a)
           | _ => ("panicked", [])
-        s!"res={res} items=[{showNats (items.map idOf)}] block_req={req} block_free={fre} zero_req={zr}{showDrops (drops r.etrace)}"
+        let ncalls := (r.etrace.filter fun e => match e with | .take .. => true | .panic .. => true | _ => false).length
+        s!"res={res} items=[{showNats (items.map idOf)}] calls={ncalls} block_req={req} block_free={fre} zero_req={zr}{showDrops (drops r.etrace)}"
     | "try_from_vec" =>
       match tryFromVec src cap n with
       | .ok it same => s!"res=ok items=[{showNats (it.map idOf)}]{if l = cap then s!" same_block={if same then 1 else 0}" else ""}{showDrops it}"
